@@ -10,18 +10,6 @@
 From LanceV Require Import Common.Base Store.Model_History Store.Proofs_History.
 Local Open Scope N_scope.
 
-Lemma snapshot_copy_any s s' r r' v :
-  (forall p, get s' (r', p) = get s (r, p)) ->
-  (forall m, get s (r, RManifest v) = Some (CMan m) -> man_local m = true) ->
-  snapshot r' v s' = snapshot r v s.
-Proof.
-  intros H L. destruct (get s (r, RManifest v)) as [[m| |]|] eqn:G.
-  - eapply snapshot_copy; [exact G | apply L; reflexivity | exact H].
-  - unfold snapshot, open. rewrite H, G. reflexivity.
-  - unfold snapshot, open. rewrite H, G. reflexivity.
-  - unfold snapshot, open. rewrite H, G. reflexivity.
-Qed.
-
 Theorem C42_copy : forall (oracle : store -> N) r r' s0 h,
   r <> r' -> all_local r s0 ->
   let s := run oracle r h s0 in
